@@ -183,6 +183,25 @@ func newHWorld(o hopts) (*hworld, error) {
 		Date: hotline.NewTime(time.Unix(1700000000, 0)), DataFlav: hotline.NewsFlavor, Data: "article body"}); err != nil {
 		return fail(err)
 	}
+	// nested news items: a bundle and a category inside the bundle, and a category and a bundle one level deeper
+	for _, g := range []struct {
+		path []string
+		name string
+		typ  [2]byte
+	}{
+		{[]string{"Bundle"}, "SubBundle", hotline.NewsBundle}, {[]string{"Bundle"}, "SubCat", hotline.NewsCategory},
+		{[]string{"Bundle", "SubBundle"}, "DeepCat", hotline.NewsCategory}, {[]string{"Bundle", "SubBundle"}, "DeepBundle", hotline.NewsBundle},
+	} {
+		if err := w.News.CreateGrouping(g.path, g.name, g.typ); err != nil {
+			return fail(err)
+		}
+	}
+	for _, np := range [][]string{{"Bundle", "SubCat"}, {"Bundle", "SubBundle", "DeepCat"}} {
+		if err := w.News.PostArticle(np, 0, hotline.NewsArtData{Title: "Nested", Poster: "setup",
+			Date: hotline.NewTime(time.Unix(1700000000, 0)), DataFlav: hotline.NewsFlavor, Data: "nested article"}); err != nil {
+			return fail(err)
+		}
+	}
 	if o.orphan {
 		if err := os.WriteFile(filepath.Join(w.Config, "Users", "newacct.yaml"), []byte(sim.AccountYAML(sim.Acct{Login: "newacct", Name: "Orphan", Password: "op"})), 0644); err != nil {
 			return fail(err)
@@ -537,8 +556,29 @@ func applyVariant(t int, v string, f []sim.F) ([]sim.F, error) {
 		if v == "nested" {
 			return append(f, sim.Fld(sim.FNewsPath, sim.EncNewsPath("Bundle"))), nil
 		}
+		if v == "deep" {
+			return append(f, sim.Fld(sim.FNewsPath, sim.EncNewsPath("Bundle", "SubBundle"))), nil
+		}
+	case 370:
+		if v == "nested" {
+			return setField(f, sim.FNewsPath, sim.EncNewsPath("Bundle")), nil
+		}
+		if v == "deep" {
+			return setField(f, sim.FNewsPath, sim.EncNewsPath("Bundle", "SubBundle")), nil
+		}
+	case 371:
+		if v == "nested" {
+			return setField(f, sim.FNewsPath, sim.EncNewsPath("Bundle", "SubCat")), nil
+		}
+		if v == "deep" {
+			return setField(f, sim.FNewsPath, sim.EncNewsPath("Bundle", "SubBundle", "DeepCat")), nil
+		}
 	case 400:
 		switch v {
+		case "nested":
+			return setField(f, sim.FNewsPath, sim.EncNewsPath("Bundle", "SubCat")), nil
+		case "deep":
+			return setField(f, sim.FNewsPath, sim.EncNewsPath("Bundle", "SubBundle", "DeepCat")), nil
 		case "id2":
 			return setField(f, sim.FNewsArtID, sim.U16(1)), nil
 		case "noflavor":
@@ -546,6 +586,10 @@ func applyVariant(t int, v string, f []sim.F) ([]sim.F, error) {
 		}
 	case 410:
 		switch v {
+		case "nested":
+			return setField(f, sim.FNewsPath, sim.EncNewsPath("Bundle", "SubCat")), nil
+		case "deep":
+			return setField(f, sim.FNewsPath, sim.EncNewsPath("Bundle", "SubBundle", "DeepCat")), nil
 		case "id2":
 			return setField(f, sim.FNewsArtID, sim.U16(0)), nil
 		case "reply":
@@ -553,6 +597,10 @@ func applyVariant(t int, v string, f []sim.F) ([]sim.F, error) {
 		}
 	case 411:
 		switch v {
+		case "nested":
+			return setField(f, sim.FNewsPath, sim.EncNewsPath("Bundle", "SubCat")), nil
+		case "deep":
+			return setField(f, sim.FNewsPath, sim.EncNewsPath("Bundle", "SubBundle", "DeepCat")), nil
 		case "id2":
 			return setField(f, sim.FNewsArtID, sim.U16(1)), nil
 		case "norecurse":
@@ -736,8 +784,18 @@ func (h *hworld) baseReq(t int, k, variant string) ([]sim.F, error) {
 			return []sim.F{npath("Cat")}, nil
 		case "bundle":
 			return []sim.F{npath("Bundle")}, nil
+		case "cat2":
+			return []sim.F{npath("Bundle", "SubCat")}, nil
+		case "bundle2":
+			return []sim.F{npath("Bundle", "SubBundle")}, nil
+		case "cat3":
+			return []sim.F{npath("Bundle", "SubBundle", "DeepCat")}, nil
+		case "bundle3":
+			return []sim.F{npath("Bundle", "SubBundle", "DeepBundle")}, nil
 		case "missing":
 			return []sim.F{npath("Nope")}, nil
+		case "missing2":
+			return []sim.F{npath("Bundle", "Nope")}, nil
 		}
 	case 381:
 		return []sim.F{name("NewBundle")}, nil
